@@ -147,6 +147,8 @@ Definition known_reject (d : diag) : bool :=
   | KDatum => true           (* datum-type: a datum of another type than the instruction's *)
   | KInt | KStr =>           (* settime-operand, cond-operand *)
       match op with Settime | Jnm | Jm => true | _ => false end
+  | KBool =>                 (* neg/bool: ~ applied to a comparison *)
+      match op with Neg => true | _ => false end
   | _ => false
   end.
 
